@@ -790,6 +790,7 @@ class UniqueDirectivesPerLocationChecker(ValidationVisitor):
     enter_fragment_spread = _validate_unique_directive_names
     enter_inline_fragment = _validate_unique_directive_names
     enter_fragment_definition = _validate_unique_directive_names
+    enter_variable_definition = _validate_unique_directive_names
 
 
 class KnownArgumentNamesChecker(ValidationVisitor):
